@@ -194,7 +194,7 @@ pub fn run(tier: &Tier, _args: &[String]) -> i32 {
         let mut n = 0u64;
         let mut oc: BTreeMap<String, u64> = BTreeMap::new();
         let mut idx = 0usize;
-        let mut bad = |part: &str, what: String, kind: &str, detail: String, results: &mut Vec<Value>| {
+        let bad = |part: &str, what: String, kind: &str, detail: String, results: &mut Vec<Value>| {
             results.push(json!({"case": Case{part: part.into(), what}, "kind": kind, "detail": detail}));
         };
 
